@@ -66,3 +66,10 @@ func vfJwtKeyUsable(k *JWK) bool {
 	_, err := jwkToPEM(k)
 	return err == nil
 }
+
+// vfJwtSetKeys replaces the key set the instance's (fake) JWKS source serves: the provider rotated its keys
+func vfJwtSetKeys(t *TraefikOidc, set *JWKSet) {
+	if f, ok := t.jwkCache.(*vfJwtFakeJWKS); ok {
+		f.set = set
+	}
+}
